@@ -224,7 +224,7 @@ func keys2(rng *rand.Rand) []model2d.Coord {
 func fmtC2(c model2d.Coord) string { return fmt.Sprintf("(%x,%x)", c.X, c.Y) }
 
 func mapHistories(r *vlib.Run) {
-	n := r.N(3000, 60000)
+	n := r.N(12000, 120000)
 	r.Section("maps3d", n, vlib.SectionOpts{}, func(c *vlib.Case) {
 		rng := c.Rng
 		pts := keys3(rng)
@@ -270,7 +270,7 @@ func mapHistories(r *vlib.Run) {
 }
 
 func mapHistories2(r *vlib.Run) {
-	n := r.N(3000, 60000)
+	n := r.N(12000, 120000)
 	type K = model2d.Coord
 	r.Section("maps2d", n, vlib.SectionOpts{}, func(c *vlib.Case) {
 		rng := c.Rng
